@@ -3,10 +3,12 @@
 and records the outcome in each seeded/<id>/meta.json. usage: seed_recheck.py [ids...]"""
 import json, subprocess, sys, os
 V='/verif'
-want=set(sys.argv[1:])
+primary='--primary' in sys.argv
+want=set(a for a in sys.argv[1:] if not a.startswith('--'))
 rows=[l.split() for l in open(f'{V}/seeded/CHECKS.txt') if l.strip() and not l.startswith('#')]
 for r in rows:
     sid, checks = r[0], r[1:]
+    if primary: checks=checks[:1]
     if want and sid not in want: continue
     d=f'{V}/seeded/{sid}'
     meta=json.load(open(f'{d}/meta.json'))
